@@ -5,7 +5,12 @@
 #define CONTRACTS_LIBC_H
 #include "verif.h"
 #ifdef VERIF_CBMC
+#ifdef G_MC_EXPR
+/* a job may align the libc ghost index with its own ghost stream index (the clauses below hold for EVERY index value) */
+#define G_mc ((size_t)(G_MC_EXPR))
+#else
 size_t G_mc;   /* ghost index: never assigned by code under proof */
+#endif
 #endif
 void *memcpy(void *dst, const void *src, size_t n)
 REQUIRES(n == 0 || (W_OK(dst, n) && R_OK(src, n)))
@@ -16,15 +21,33 @@ ASSIGNS(n != 0: OBJ_UPTO((uint8_t *)dst, n))
 ENSURES(RET == dst)
 ENSURES(G_mc < n IMPLIES ((const uint8_t *)dst)[G_mc] == ((const uint8_t *)src)[G_mc])
 ;
-/* memcmp as an arbitrary total order test over readable ranges (result unconstrained) */
+/* memcmp as an arbitrary total order test over readable ranges (result unconstrained).
+   Recording variant: what was compared, over how many bytes, and the answer (P-TAINT). */
+#ifdef CONTRACT_MEMCMP_RECORDING
+#ifdef VERIF_CBMC
+int G_mcmp_last; size_t G_mcmp_n; const void *G_mcmp_a; const void *G_mcmp_b; unsigned G_mcmp_calls;
+#endif
+int memcmp(const void *a, const void *b, size_t n)
+REQUIRES(n == 0 || (R_OK(a, n) && R_OK(b, n)))
+ASSIGNS(G_mcmp_last, G_mcmp_n, G_mcmp_a, G_mcmp_b, G_mcmp_calls)
+ENSURES(G_mcmp_last == RET && G_mcmp_n == n && G_mcmp_a == a && G_mcmp_b == b && G_mcmp_calls == OLD(G_mcmp_calls) + 1)
+;
+#else
 int memcmp(const void *a, const void *b, size_t n)
 REQUIRES(n == 0 || (R_OK(a, n) && R_OK(b, n)))
 ASSIGNS()
+/* equal ranges agree at every index, in particular at the ghost index */
+ENSURES((RET == 0 && G_mc < n) IMPLIES ((const uint8_t *)a)[G_mc] == ((const uint8_t *)b)[G_mc])
 ;
+#endif
 /* src/hex.c helpers */
 void gmssl_secure_clear(void *ptr, size_t len)
 REQUIRES(len == 0 || W_OK(ptr, len))
 ASSIGNS(len != 0: OBJ_UPTO((uint8_t *)ptr, len))
 ENSURES(G_mc < len IMPLIES ((const uint8_t *)ptr)[G_mc] == 0)
+;
+void gmssl_memxor(void *r, const void *a, const void *b, size_t len)
+REQUIRES(len == 0 || (W_OK(r, len) && R_OK(a, len) && R_OK(b, len)))
+ASSIGNS(len != 0: OBJ_UPTO((uint8_t *)r, len))
 ;
 #endif
